@@ -547,4 +547,40 @@ func TestVerifC06Agg(t *testing.T) {
 		}
 	}
 	r.Add("aggregate_permutation_vectors", vectors)
+	// pointer naming: every assignment of {three pointers, one plain value} to six
+	// argument slots (the dump layout of C15), parsed under every order of every map loop
+	vals := []uint64{0xc000012340, 0xc000045678, 0xc0000789a0, 5}
+	nameVectors := 0
+	for m := 0; m < 1<<12; m++ {
+		seq++
+		if !r.MineIdx(seq) || r.Expired() {
+			continue
+		}
+		vs := make([]uint64, 6)
+		for i := range vs {
+			vs[i] = vals[m>>(2*i)&3]
+		}
+		for _, race := range []bool{false, true} {
+			in := c15Text(vs, race)
+			key := fmt.Sprintf("names %x race=%v", vs, race)
+			mc.Chooser = nil
+			ref := canonSnapshot(scanOnce(bytes.NewReader(in), &Opts{NameArguments: true}).snap)
+			bad := false
+			nv, _ := h.Explore(-1, r.Expired, func(c *h.Ctx) {
+				if bad {
+					return
+				}
+				installChooser(c)
+				res := scanOnce(bytes.NewReader(in), &Opts{NameArguments: true})
+				mc.Chooser = nil
+				if d := canonSnapshot(res.snap); d != ref || res.panicked != "" {
+					bad = true
+					r.Report(&h.Viol{Fingerprint: "C06/names-depend-on-map-order", Summary: fmt.Sprintf("pointer values %x: map iteration order %s changes the snapshot", vs, c.Labels()), Key: key, Kind: "mapchoice-names", Expected: ref, Observed: d + res.panicked, Reproduced: 5, InputText: string(in)})
+				}
+			})
+			nameVectors += nv
+			r.Record(key, nv > 1, h.Hash(ref))
+		}
+	}
+	r.Add("naming_permutation_vectors", nameVectors)
 }
